@@ -18,7 +18,7 @@
    REAL chunks of every corpus and generated template (Corr/CorrC07.v, families chk and wld),
    before and after the peephole pass, on every run. *)
 From TeraV Require Import Model.Value Model.Instr Model.Slice Model.VFormat Model.VM Model.World0 Model.StackCheck
-  Proofs.StackCheckSlice Proofs.StackCheckProofs Proofs.FormatUtf8 Proofs.CompileChecks.
+  Proofs.StackCheckSlice Proofs.StackCheckProofs Proofs.FormatUtf8 Proofs.CompileChecks Proofs.StackCheckWorld0.
 Local Open Scope nat_scope.
 
 (* ---------- the validator is sound: entry points ---------- *)
@@ -198,6 +198,36 @@ Example C07_ex_rejects :
   check_chunk [LoadName [97%N]; LoadName [98%N]; AppendToList; WriteTop] = false /\
   check_chunk [LoadName [97%N]] = false.
 Proof. vm_compute. repeat split. Qed.
+
+(* the hypotheses of the soundness theorems are satisfiable: a world of two templates
+   (`{% for i in a.x %}{{ i.y | upper }}{% else %}{% include "u" %}{% endfor %}` and `<x>`)
+   over World0's built-ins passes world_checked, respects its registry, and renders *)
+Definition ex_chunk : list instr :=
+  [LoadPath [[97%N]; [120%N]]; StartIterate false; StoreLocal [105%N]; Iterate 9;
+   LoadPath [[105%N]; [121%N]]; BuildMap 0; ApplyFilter n_upper; WriteTop; Jump 3;
+   StoreDidNotIterate; PopLoop; PopJumpIfFalse 13; Include [117%N]].
+Definition ex_t : template :=
+  {| t_name := [116%N]; t_chunk := ex_chunk; t_root_chunk := ex_chunk; t_lineage := []; t_autoescape := true |}.
+Definition ex_u : template :=
+  {| t_name := [117%N]; t_chunk := [WriteText [60%N; 120%N; 62%N]]; t_root_chunk := [WriteText [60%N; 120%N; 62%N]];
+     t_lineage := []; t_autoescape := true |}.
+Definition ex_world : world := world0 [([116%N], ex_t); ([117%N], ex_u)].
+
+Example C07_ex_world :
+  world_checked reg0 ex_world = true /\ world_respects ex_world reg0 /\
+  (* text: "Q&lt;" — upper-cased and escaped *)
+  (exists s, render_to str wr_str ex_world 100 ex_t None
+     [([97%N], VMap [(KStr [120%N] true, VArr [VMap [(KStr [121%N] true, VStr [113%N; 60%N] false)]])])] [] []
+     = RDone s (SinkTop [81%N; 38%N; 108%N; 116%N; 59%N])) /\
+  (* the else branch includes the other template *)
+  (exists s, render_to str wr_str ex_world 100 ex_t None [([97%N], VMap [(KStr [120%N] true, VArr [])])] [] []
+     = RDone s (SinkTop [60%N; 120%N; 62%N])) /\
+  (* an error value, not a panic, when `a` is missing *)
+  render_to str wr_str ex_world 100 ex_t None [] [] [] = RFail ErrRender.
+Proof.
+  split; [vm_compute; reflexivity|split; [apply world0_respects|]].
+  split; [eexists; vm_compute; reflexivity|]. split; [eexists; vm_compute; reflexivity|]. vm_compute. reflexivity.
+Qed.
 
 (* the local compiler port reproduces the real listing of `{{ false and user.name }}` (the
    before-optimisation listing used in Props/C09.v) *)
